@@ -71,8 +71,8 @@ CLAIMED['C14'] = dict(
     design='5/C14')
 
 CLAIMED['C12'] = dict(
-    level='proof',
-    text='All 9 scanners of lex.cpp, tokenizer_t::skipTo x2 / skipFrom / countSkippedLines loop / getRawString end-pattern loop / the scan-then-step fragments of getString, getRawString, getCharToken, getHeader, and the cursor handling of primitive::load/loadHex/loadBinary are C-extracted each run and proved memory-safe, terminating and '
+    level='other',
+    text='Mixed: unbounded proofs for the scanners, a bounded stand-in for the escape codec (hence category other). All 9 scanners of lex.cpp, tokenizer_t::skipTo x2 / skipFrom / countSkippedLines loop / getRawString end-pattern loop / the scan-then-step fragments of getString, getRawString, getCharToken, getHeader, and the cursor handling of primitive::load/loadHex/loadBinary are C-extracted each run and proved memory-safe, terminating and '
          'stopping at NUL or the documented delimiter for NUL-terminated buffers of every length (dfcc function contracts, loop contracts, callers checked against callee contracts); escape/unescape round trip, every-quote-escaped and spelling round trip for every byte string up to length 4 (quick) / 10 (thorough) - that part is bounded. Tests tokenize a few fixed strings.',
     note='trusted: CBMC C front end + SAT, C extraction rules (references -> pointers, fp as a global), libc strlen/strncmp and parse* contracts assumed, ghost set-membership table (sets <= 64 chars). Not reached: getToken/peek dispatch, token classes, whole token-sequence round trip, operator longest match (C28).',
     technique='CBMC code contracts (goto-instrument --dfcc, loop contracts, replace-call-with-contract) on mechanically C-extracted real functions; bounded unwinding for the escape codec',
